@@ -102,6 +102,11 @@ impl Hooks for SimHooks {
     }
 
     fn buggify(&self, site: &'static str) -> bool {
+        if let Some(s) = &self.sched {
+            if !s.faults_allowed() {
+                return false;
+            }
+        }
         let mut op = self.op.lock().unwrap();
         match site {
             "read.drop" => {
